@@ -183,6 +183,7 @@ def ch_periods(ctx) -> Channel:
                         # floor-division of the loop count is at its rounding edge (0.3 // 0.1 = 2)
                         ast = c12_lib.gen_clock(rng).replace(microsecond=0)
                         m = rng.choice([1, 2, 3, 7, rng.randrange(1, 10 ** 4), rng.randrange(1, 10 ** 7)])
+                        m = max(1, min(m, 10 ** 15 // max(1, defn.total_us())))     # stay within ~30 years
                         now = ast + datetime.timedelta(microseconds=m * defn.total_us() + rng.choice([0, 0, 1, -1]),
                                                        seconds=depth)
                         q = ["start=" + ast.strftime("%Y-%m-%dT%H:%M:%SZ")]
@@ -371,7 +372,7 @@ def sweep_offsets(tracks: dict, limit, rng):
     return offs
 
 
-def offsets_case(app, client, c12_lib, segwalk, mp4walk, stream, offsets, mode="vod"):
+def offsets_case(app, client, c12_lib, segwalk, mp4walk, stream, offsets, mode="vod", foreign=None):
     """one sweep stream: a Period per offset; → list of (track, start_us, {k: fetch}, extra fetches)"""
     import segchecks
     trk = {n: t for n, t in segchecks.tracks(app, stream).items() if not t.encrypted}
@@ -381,6 +382,19 @@ def offsets_case(app, client, c12_lib, segwalk, mp4walk, stream, offsets, mode="
     c12_lib.create(app, defn)
     out = []
     try:
+        if foreign is not None:
+            # period route ownership (media_requests.py:486-489, :525-528): a Period reached through
+            # another multi-period stream's URL is refused
+            other = c12_lib.create(app, c12_lib.Defn([c12_lib.PDef("q", stream, 0, 4_000_000, [1])]))
+            try:
+                name, t = sorted(trk.items())[0]
+                pk = defn.pks[defn.periods[0].pid]
+                for u in (f"/mps/{mode}/{other.name}/{pk}/{name}/{t.sn}.{ext_of(t)}",
+                          f"/mps/{mode}/{other.name}/{pk}/{name}/init.{ext_of(t)}",
+                          f"/mps/{mode}/{defn.name}/{other.pks['q']}/{name}/{t.sn}.{ext_of(t)}"):
+                    foreign.append((u, segwalk.get(client, u).status_code))
+            finally:
+                c12_lib.delete(app, other)
         for p in defn.periods:
             base = f"/mps/{mode}/{defn.name}/{defn.pks[p.pid]}/"
             for name, t in sorted(trk.items()):
@@ -426,7 +440,15 @@ def ch_offsets(ctx) -> Channel:
             trk = segchecks.tracks(app, stream)
             offs = sweep_offsets(trk, ctx.scale(28, 200), rng)
             mode = rng.choice(["vod", "live"])
-            for t, start_us, ks, below, times in offsets_case(app, client, c12_lib, segwalk, mp4walk, stream, offs, mode):
+            foreign = []
+            cases = offsets_case(app, client, c12_lib, segwalk, mp4walk, stream, offs, mode, foreign)
+            for u, st in foreign:
+                ch.evaluations += 1
+                ch.count(f"foreign-period:status={st}")
+                if st != 404:
+                    ch.disagreements.append({"url": u, "model": "404 (Period belongs to another multi-period stream)",
+                                             "impl": str(st)})
+            for t, start_us, ks, below, times in cases:
                 for k, f in ks.items():
                     lines.append(model_line(t, start_us, "n", t.sn + k))
                     recs.append((t, start_us, k, f, mode))
